@@ -1,5 +1,5 @@
 //! C06 - TRG packet decoding is exact and decoded counters are ordered.
-use super::diff_outcome;
+use super::{diff_both, diff_outcome};
 use crate::engine::*;
 use crate::gen;
 use crate::PropDef;
@@ -9,7 +9,7 @@ use serde_json::Value;
 pub fn def() -> PropDef {
     PropDef {
         id: "C06",
-        rule: "inputs: (a) valid 80-byte TRG v3 packets (every field at 0/1/mid/max-1/max, ordered counters with ties) with 0-3 mutations (any bit flipped, any word set to a boundary value, any counter set to another counter -1/0/+1, length changed); (b) exhaustively every one of the 640 bits set/cleared on top of 6 valid base packets, all 256 orderings of the four counters over {a..a+3} for 5 bases a incl. 0 and 2^32-4, header/footer/output low-28 agreements and single disagreements with differing top nibbles, and every length 0..=200; oracle: reference validator agrees, accessors (incl. the Option wrappers of TrgPacket) equal the little-endian fields, counters ordered, re-encoding reproduces the bytes; non-trivial = at distance <= 1 mutation from the accept/reject frontier; distinct by byte hash",
+        rule: "inputs: (a) valid 80-byte TRG v3 packets (every field at 0/1/mid/max-1/max, ordered counters with ties) with 0-3 mutations (any bit flipped, any word set to a boundary value, any counter set to another counter -1/0/+1, the same bits flipped in two words, one word copied over another, length changed); (b) exhaustively every one of the 640 bits set/cleared on top of 6 valid base packets, all 256 orderings of the four counters over {a..a+3} for 5 bases a incl. 0 and 2^32-4, header/footer/output low-28 agreements and single disagreements with differing top nibbles, and every length 0..=200; oracle: reference validator agrees, accessors (incl. the Option wrappers of TrgPacket) equal the little-endian fields, counters ordered, re-encoding reproduces the bytes; non-trivial = at distance <= 1 mutation from the accept/reject frontier; distinct by byte hash",
         assumptions: &["the reference validator (oracles::trg::ref_trg) transcribes the rule list of the property statement"],
         run,
         replay,
@@ -19,7 +19,7 @@ pub fn def() -> PropDef {
 fn case_oracle(c: &gen::TrgCase, ev: &mut Ev) -> Outcome {
     ev.eval();
     let b = c.bytes();
-    let label = diff_outcome(detdiff::trg(&b), ev, "trg")?;
+    let label = diff_both(detdiff::trg, &b, 6, ev, "trg")?;
     if c.muts.len() <= 1 {
         ev.nontrivial(fingerprint(&b));
     }
